@@ -1984,6 +1984,18 @@ impl ParserState {
                     for i in self.rows[item.start_pos()].item_indices() {
                         let item = self.scratch.items[i];
                         if self.grammar.sym_idx_dot(item.rhs_ptr()) == lhs {
+                            if self.scratch.parametric {
+                                // the completed rule belongs to one parameter value of 'lhs';
+                                // only items that were waiting for that value can advance
+                                let param_done = self.scratch.item_args[item_idx];
+                                let param_waiting = self
+                                    .grammar
+                                    .param_value_dot(item.rhs_ptr())
+                                    .eval(self.scratch.item_args[i]);
+                                if param_waiting != param_done {
+                                    continue;
+                                }
+                            }
                             self.scratch.add_unique(item.advance_dot(), i, "complete");
                         }
                     }
